@@ -248,6 +248,29 @@ def run(ctx):
                           "a block that went through compress_block but is emitted as %s must forget the Huffman table compress_block "
                           "remembered (the decoder never receives it)" % ty, observed=[H.show(x) for x in clears])
         ctx.check(n >= 1, RH, "fallback-sites", b["file"], "raw fallback site after compress_block", observed=n)
+        # the general form: whatever part of the per-frame compressor state compress_block (or a callee) writes is state
+        # the decoder only acquires if the compressed form is emitted; on the fallback edge each such field must be
+        # re-established.  The matcher is exempt: it holds the *data* of the block, which the decoder has either way.
+        crate_ = ctx.crate()
+        reach = flow.reachable_fns(crate_, [ENC + "::compress_block"])
+        adt = crate_.adts.get(CS) or {}
+        fields = [f_["name"] for f_ in (adt.get("variants") or [{}])[0].get("fields", ())]
+        exempt = {"matcher": "holds the block's data (window), not encoder/decoder-shared coding state"}
+        carried = sorted(f_ for f_ in fields if f_ not in exempt and any(w_ in reach for w_ in dom.field_writers(ctx, CS + "." + f_)))
+        ctx.check("last_huff_table" in carried and "matcher" in fields, RH, "compress-state::fields-written-by-compress_block", "",
+                  "fields of CompressState written on the compress_block path", observed=carried)
+        for l in lits:
+            f = {x["name"]: H.show(hq.peel(x["e"])) for x in l["fields"]}
+            ty = f.get("block_type", "").split("::")[-1]
+            if ty not in ("Raw", "RLE") or dom.dominated_by_call(ix, l, "compress_block") is None:
+                continue
+            blk = next((a for a in ix.ancestors(l) if a.get("k") == "Block"), None)
+            tops = [hq.peel(s_.get("e") or {}) for s_ in hq.top_statements(blk)] if blk else []
+            reset = {hq.field_chain(x["l"])[1][-1] for x in tops if x.get("k") == "Assign" and hq.field_chain(x["l"])[1]}
+            missing = [f_ for f_ in carried if f_ not in reset]
+            ctx.check(not missing, RH, "compress_fastest::%s-rolls-back-all-block-state" % ty, H.loc(b, l),
+                      "every CompressState field that compress_block may have advanced must be re-established when the block is emitted as %s "
+                      "(the decoder never sees the compressed form, so its state did not advance)" % ty, observed={"carried": carried, "re-established": sorted(reset)})
         # who writes last_huff_table
         w = dom.field_writers(ctx, CS + ".last_huff_table")
         allowed = {FC + "::new", FC + "::new_with_matcher", FC + "::compress", ENC + "::compress_block", FAST}
